@@ -39,6 +39,9 @@ def jobs(tier):
                 for op in ("start", "finish", "serialize"):
                     js.append(("job_step", dict(_name="step q=%s %s pre=%s op=%s" % (qn, cls, mode, op),
                                                 qn=qn, cls=cls, mode=mode, op=op)))
+                    if qn == "11" and mode == "restored":            # empty password and identities
+                        js.append(("job_step", dict(_name="step q=%s %s pre=%s op=%s empty inputs" % (qn, cls, mode, op),
+                                                    qn=qn, cls=cls, mode=mode, op=op, lens=(0, 0, 0))))
     depth = 2 if tier == "quick" else 4
     for cls in "ABS":
         seqs = list(itertools.product(range(len(OPS)), repeat=depth))
@@ -87,10 +90,9 @@ def _unchanged(pre, post, skip=()):
     return z3.And(conj)
 
 
-def job_step(J, qn, cls, mode, op):
+def job_step(J, qn, cls, mode, op, lens=(1, 1, 0)):
     q = orders()[qn]
     S = loader.MODS["spake2"]
-    lens = (1, 1, 0)
     J.bounds.update(q=qn, cls=cls, pre_state=mode, op=op, lens=lens)
 
     def h(ctx):
